@@ -229,41 +229,74 @@ func keyFeeds(ev *Event, top *Frame) []ssa.Value {
 // keyDeps additionally returns the functions whose results flow into the key.
 func keyDeps(ev *Event, top *Frame) ([]ssa.Value, map[*ssa.Function]bool) {
 	callees := map[*ssa.Function]bool{}
-	cur := []ssa.Value{ev.Site.(ssa.CallInstruction).Common().Args[0]}
+	// a value, and - when the key is one field of a struct that travels as a whole
+	// (idx.key of a parameter idx) - the field still to be projected out of it
+	type fv struct {
+		v     ssa.Value
+		field int
+	}
+	cur := []fv{{ev.Site.(ssa.CallInstruction).Common().Args[0], -1}}
 	for f := ev.Fr; f != nil && f != top; f = f.Parent {
 		if f.Call == nil {
 			return nil, callees
 		}
 		// parameters of f.Fn reached from cur
-		params := map[int]bool{}
-		seen := map[ssa.Value]bool{}
-		var walk func(v ssa.Value, d int)
-		walk = func(v ssa.Value, d int) {
-			if v == nil || seen[v] || d > 40 {
+		type pf struct{ idx, field int }
+		params := map[pf]bool{}
+		type sk struct {
+			v     ssa.Value
+			field int
+		}
+		seen := map[sk]bool{}
+		var walk func(v ssa.Value, field, d int)
+		walk = func(v ssa.Value, field, d int) {
+			if v == nil || seen[sk{v, field}] || d > 40 {
 				return
 			}
-			seen[v] = true
+			seen[sk{v, field}] = true
 			if p, ok := v.(*ssa.Parameter); ok {
 				for i, q := range f.Fn.Params {
 					if q == p {
-						params[i] = true
+						params[pf{i, field}] = true
 					}
 				}
 				return
 			}
 			if u, ok := v.(*ssa.UnOp); ok && u.Op == token.MUL {
+				want := field
+				if fa, isFA := u.X.(*ssa.FieldAddr); isFA && field < 0 {
+					if _, isStruct := fa.X.Type().Underlying().(*types.Pointer).Elem().Underlying().(*types.Struct); isStruct {
+						want = fa.Field
+					}
+				}
 				if base := allocBase(u.X); base != nil {
 					for _, r := range *base.Referrers() {
-						if st, ok := r.(*ssa.Store); ok {
-							walk(st.Val, d+1)
+						switch y := r.(type) {
+						case *ssa.Store:
+							if y.Addr == base {
+								walk(y.Val, want, d+1) // the whole value; the field is projected later
+							}
+						case *ssa.FieldAddr:
+							if want >= 0 && y.Field != want {
+								continue
+							}
+							if y.Referrers() == nil {
+								continue
+							}
+							for _, r2 := range *y.Referrers() {
+								if st, ok := r2.(*ssa.Store); ok && st.Addr == y {
+									walk(st.Val, -1, d+1)
+								}
+							}
 						}
 					}
+					return
 				}
 			}
 			if a, ok := v.(*ssa.Alloc); ok {
 				for _, r := range *a.Referrers() {
 					if st, ok := r.(*ssa.Store); ok && st.Addr == a {
-						walk(st.Val, d+1)
+						walk(st.Val, field, d+1)
 					}
 				}
 			}
@@ -286,7 +319,7 @@ func keyDeps(ev *Event, top *Frame) ([]ssa.Value, map[*ssa.Function]bool) {
 						case ssa.CallInstruction:
 							for _, a := range x.Common().Args {
 								if a != b {
-									walk(a, d+1)
+									walk(a, -1, d+1)
 								}
 							}
 						}
@@ -297,28 +330,82 @@ func keyDeps(ev *Event, top *Frame) ([]ssa.Value, map[*ssa.Function]bool) {
 			if ins, ok := v.(ssa.Instruction); ok {
 				for _, op := range ins.Operands(nil) {
 					if op != nil && *op != nil {
-						walk(*op, d+1)
+						walk(*op, -1, d+1)
 					}
 				}
 			}
 		}
-		for _, v := range cur {
-			walk(v, 0)
+		for _, x := range cur {
+			walk(x.v, x.field, 0)
 		}
-		var next []ssa.Value
+		var next []fv
 		c := f.Call.Common()
-		for i := range params {
-			j := i
+		for p := range params {
+			j := p.idx
 			if c.IsInvoke() {
 				j--
 			}
 			if j >= 0 && j < len(c.Args) {
-				next = append(next, c.Args[j])
+				next = append(next, fv{c.Args[j], p.field})
 			}
 		}
+		sort.Slice(next, func(i, j int) bool { return next[i].field < next[j].field })
 		cur = next
 	}
-	return cur, callees
+	// project the pending fields at the top frame
+	var out []ssa.Value
+	for _, x := range cur {
+		if x.field < 0 {
+			out = append(out, x.v)
+			continue
+		}
+		vals := projectField(x.v, x.field, 0)
+		if vals == nil {
+			out = append(out, x.v)
+			continue
+		}
+		out = append(out, vals...)
+	}
+	return out, callees
+}
+
+// projectField: the values stored into field #field of the struct value v where it is
+// assembled in this function (nil if v is not a load of a local).
+func projectField(v ssa.Value, field, depth int) []ssa.Value {
+	if depth > 4 {
+		return nil
+	}
+	u, ok := v.(*ssa.UnOp)
+	if !ok || u.Op != token.MUL {
+		return nil
+	}
+	a, ok := u.X.(*ssa.Alloc)
+	if !ok || a.Referrers() == nil {
+		return nil
+	}
+	var out []ssa.Value
+	for _, r := range *a.Referrers() {
+		switch y := r.(type) {
+		case *ssa.FieldAddr:
+			if y.Field != field || y.Referrers() == nil {
+				continue
+			}
+			for _, r2 := range *y.Referrers() {
+				if st, ok := r2.(*ssa.Store); ok && st.Addr == y {
+					out = append(out, st.Val)
+				}
+			}
+		case *ssa.Store:
+			if y.Addr == a {
+				if vs := projectField(y.Val, field, depth+1); vs != nil {
+					out = append(out, vs...)
+				} else {
+					out = append(out, y.Val)
+				}
+			}
+		}
+	}
+	return out
 }
 
 func loopInduction(h *ssa.BasicBlock) map[ssa.Value]bool {
